@@ -62,13 +62,17 @@ func VerifC10CausalOrder() {
 	if pending != "" {
 		aw.Write(pending)
 	}
+	// a later, unrelated sshd line: its UserLogin is written when the session's events are
+	// already in the file
+	verifrt.Quiesce()
+	sw.Write("25010 Failed password for bob from 10.0.0.9 port 2200 ssh2\n")
 	verifrt.Quiesce()
 	cancel()
 	<-done
 	verifrt.KeepOpen(sw, aw)
 	verifrt.Reach("c10.daemon-stopped")
 	evs := verifrt.OutputEvents(out)
-	logins, actions := 0, 0
+	logins, actions, others := 0, 0, 0
 	seenLogin := false
 	for _, e := range evs {
 		verifrt.Assert("c10.whole-line", e != "<torn>")
@@ -79,10 +83,13 @@ func VerifC10CausalOrder() {
 		case "UserAction|499|someuser":
 			actions++
 			verifrt.Assert("c10.login-before-its-actions", seenLogin)
+		case "UserLogin|-|bob":
+			others++
 		default:
 			verifrt.Assert("c10.no-foreign-event", false)
 		}
 	}
 	verifrt.Assert("c10.login-written-once", logins == 1)
 	verifrt.Assert("c10.each-action-written-once", actions == len(records))
+	verifrt.Assert("c10.later-login-written-once", others == 1)
 }
